@@ -26,6 +26,11 @@ CHECKS.update({
  "C19": ("exploration", "Hooked observation of both index maps through the public extension points (on_parse, CustomSection::data) compared with independently decoded binaries using index-free entity descriptions.", "descriptions computed twice: from walrus's public API by the driver, from the bytes by the judge", "runtime monitoring: callback observation checked against decoded binaries", "6 C19"),
 })
 
+CHECKS.update({
+ "C16": ("exploration", "Recording visitors (default hooks and all hooks overridden, immutable and mutable) log every traversal callback of every local function; compared with the judge's own operand table over the decoded input: exact program order and grouping for the immutable traversal, operand multisets for the others; the stack span sampled inside the callbacks must not grow with nesting depth (checked up to depth 10^5, 10^6 in thorough).", "entity operands as defined in DESIGN.md section 6 C16; branch-target sequence ids not demanded", "runtime monitoring: callback log checked against an independent walk + stack-address sampling", "6 C16"),
+ "C17": ("exploration", "Every history of additions/deletions up to length 6 (7 thorough) over a 5-symbol alphabet on each of the 11 public collections, plus long random histories, replayed step by step against a sequential reference model (results, get on every id ever issued, iteration order, lookups).", "small value domains; double deletes skipped on both sides", "runtime monitoring: step-by-step conformance of recorded histories to a sequential model (small bound exhaustive)", "6 C17"),
+})
+
 NOT_YET = {}
 
 def main():
